@@ -162,6 +162,11 @@ def run_server(kconfig, sdkconfig, sdkconfig_rename, default_version=MAX_PROTOCO
                 "version": default_version,
             }
             error = ["All requests must have a 'version'"]
+        elif not isinstance(req["version"], int):
+            response = {
+                "version": default_version,
+            }
+            error = ["Request 'version' must be an integer"]
         else:
             if req["version"] >= 3:
                 before_defaults = get_sym_default_value_dict(config)
@@ -249,8 +254,8 @@ def handle_request(config, req):
     error = []
 
     if "load" in req:
-        log.print(f"Loading config from {escape(req['load'])}...", file=sys.stderr, markup=False)
         try:
+            log.print(f"Loading config from {escape(req['load'])}...", file=sys.stderr, markup=False)
             config.load_config(req["load"])
         except Exception as e:
             error += [f"Failed to load from {req['load']}: {e}"]
@@ -281,6 +286,10 @@ def handle_reset(config: kconfiglib.Kconfig, error: List[str], to_reset: List[st
 
     Special name "all" can be used to reset all symbols at once.
     """
+    if not isinstance(to_reset, list) or not all(isinstance(name, str) for name in to_reset):
+        error.append("'reset' must be a list of config symbol names and/or menu IDs")
+        return
+
     # Reset the whole configuration to default values
     if "all" in to_reset:
         if kconfiglib._recursively_perform_action(config.top_node, kconfiglib._restore_default):
@@ -325,6 +334,10 @@ def handle_reset(config: kconfiglib.Kconfig, error: List[str], to_reset: List[st
 
 
 def handle_set(config, error, to_set):
+    if not isinstance(to_set, dict):
+        error.append("'set' must be an object mapping config symbol names to values")
+        return
+
     missing = [k for k in to_set if k not in config.syms]
     if missing:
         error.append(f"The following config symbol(s) were not found: {', '.join(missing)}")
@@ -353,7 +366,7 @@ def handle_set(config, error, to_set):
                     if not isinstance(val, int):
                         val = int(val, 16)  # input can be a decimal JSON value or a string of hex digits
                     sym.set_value(hex(val))
-                except ValueError:
+                except (ValueError, TypeError):
                     error.append(f"Hex symbol {sym.name} can accept a decimal integer or a string of hex digits, only")
             elif sym.type == kconfiglib.FLOAT:
                 if not kconfiglib.is_float(str(val)):
